@@ -538,12 +538,12 @@ Qed.
 Lemma stream_refines : forall ms c bs,
   Forall (fun m => msg_ok m = true) ms -> Forall (fun m => fits (my_max_message_size c) m = true) ms ->
   frames ms = Ok bs -> spool c = bs ->
-  let '(c1, o1, _) := loop' c in let '(c2, o2) := process_messages c ms in
-  o1 = o2 /\ set_spool c1 [] = set_spool c2 [].
+  let '(c1, o1, k) := loop' c in let '(c2, o2) := process_messages c ms in
+  o1 = o2 /\ set_spool c1 [] = set_spool c2 [] /\ (k = Continue -> spool c1 = []).
 Proof.
   induction ms as [|m r IH]; intros c bs Hok Hfit Hfr Hsp.
   - cbn in Hfr. injection Hfr as <-. unfold loop'. cbn [data_received_loop]. rewrite loop_body_view.
-    unfold view_body, view_of. rewrite Hsp. cbn. split; reflexivity.
+    unfold view_body, view_of. rewrite Hsp. cbn. repeat split; auto.
   - inversion Hok as [|? ? Hm Hr]; subst. inversion Hfit as [|? ? Hfm Hfr']; subst.
     cbn [frames] in Hfr.
     destruct (serialize m) as [f|] eqn:Hf; [|discriminate]. cbn [bind] in Hfr.
@@ -562,7 +562,7 @@ Proof.
       specialize (IH Hfr' eq_refl eq_refl).
       rewrite process_messages_spool in IH.
       destruct (loop' (set_spool c' fs)) as [[c1 o1] k1].
-      destruct (process_messages c' r) as [c2 o2]. destruct IH as [-> IH2].
-      split; [reflexivity|]. exact IH2.
-    + split; reflexivity.
+      destruct (process_messages c' r) as [c2 o2]. destruct IH as (-> & IH2 & IH3).
+      split; [reflexivity|]. split; [exact IH2|exact IH3].
+    + repeat split; auto. discriminate.
 Qed.
